@@ -347,6 +347,39 @@ def checkProof (R : Rules) (cfg : Cfg) (fuel : Nat) (prf : List Item) : Except E
     | none => .error .crash                       -- prf.items[-1]: IndexError
     | some l => .ok ⟨l.th, o.root, o.gaps, o.trace⟩
 
+/-! ### `ProofReport` counters -/
+
+/-- `rpt.thm_steps`, `rpt.prim_steps`, `rpt.macro_steps` (their sum is `rpt.steps`),
+`rpt.macros_eval`, `rpt.macros_expand` (as lists, in order of first use). -/
+structure Counts where
+  thm : Nat
+  prim : Nat
+  mac : Nat
+  evald : List String
+  expanded : List String
+  deriving DecidableEq, Repr
+
+def addName (n : String) (l : List String) : List String := if l.contains n then l else l ++ [n]
+
+/-- What one trace event adds to the report: `apply_theorem`, `apply_primitive_deriv`,
+`eval_macro` (level ≤ `check_level`) or `expand_macro`; blocks, `variable`, placeholders and
+statements taken on trust add nothing. -/
+def countEv (R : Rules) (lvl : Nat) (c : Counts) (e : Ev) : Counts :=
+  match e.computed with
+  | none => c
+  | some _ =>
+    if e.rule = "theorem" then { c with thm := c.thm + 1 }
+    else if e.rule = "variable" || e.rule = "subproof" then c
+    else match R.kind e.rule with
+      | .prim => { c with prim := c.prim + 1 }
+      | .macro l =>
+        if levelOk l lvl then { c with mac := c.mac + 1, evald := addName e.rule c.evald }
+        else { c with expanded := addName e.rule c.expanded }
+      | .unknown => c
+
+def countsOf (R : Rules) (lvl : Nat) (trace : List Ev) : Counts :=
+  trace.foldl (countEv R lvl) ⟨0, 0, 0, [], []⟩
+
 /-! ### `checked_extend` (theorem extensions; the other kinds do not touch theorems) -/
 
 inductive Ext where
